@@ -39,13 +39,18 @@ Variants == [acc : {"dot", "bracket"}, ann : {"full", "ctx", "bare", "ret"}, arr
              dblnot : BOOLEAN,
              \* how the leaf "c" is spelled: directly, through a traversal of D.par (onto a relation or onto a permission), or as a permission call;
              \* and the order of the three classes in the document (class order means nothing in TypeScript)
-             leafc : {"inc", "trav_rel", "trav_perm", "perm"}, order : {"UGD", "DGU", "GDU", "UDG"}]
+             leafc : {"inc", "trav_rel", "trav_perm", "perm"}, order : {"UGD", "DGU", "GDU", "UDG"},
+             \* kw: the relation names begin with the letters of a keyword (classmates, thisb, ctxc, implementspar): ordinary identifiers
+             kw : BOOLEAN]
 
-LeafTxt(x, v) == IF x = "c" /\ v.leafc = "trav_rel" THEN "this.related.par.traverse((p) => p.related.c.includes(ctx.subject))"
-                 ELSE IF x = "c" /\ v.leafc = "trav_perm" THEN "this.related.par.traverse((p) => p.permits.q(ctx))"
+RelName(x, v) == IF ~v.kw THEN x
+                 ELSE CASE x = "a" -> "classmates" [] x = "b" -> "thisb" [] x = "c" -> "ctxc" [] x = "par" -> "implementspar" [] OTHER -> x
+
+LeafTxt(x, v) == IF x = "c" /\ v.leafc = "trav_rel" THEN "this.related." \o RelName("par", v) \o ".traverse((p) => p.related." \o RelName("c", v) \o ".includes(ctx.subject))"
+                 ELSE IF x = "c" /\ v.leafc = "trav_perm" THEN "this.related." \o RelName("par", v) \o ".traverse((p) => p.permits.q(ctx))"
                  ELSE IF x = "c" /\ v.leafc = "perm" THEN "this.permits.q(ctx)"
-                 ELSE IF v.acc = "dot" THEN "this.related." \o x \o ".includes(ctx.subject)"
-                 ELSE "this.related[\"" \o x \o "\"].includes(ctx.subject)"
+                 ELSE IF v.acc = "dot" THEN "this.related." \o RelName(x, v) \o ".includes(ctx.subject)"
+                 ELSE "this.related[\"" \o RelName(x, v) \o "\"].includes(ctx.subject)"
 Paren(s) == "(" \o s \o ")"
 \* comments between tokens, in the spellings TypeScript accepts
 Cm(v) == CASE v.comment = "block" -> " /* c */ " [] v.comment = "doc" -> " /** c **/ " [] v.comment = "stars" -> " /***/ "
@@ -63,7 +68,7 @@ Show(e, v) ==
 
 TypeTxt(v) == CASE v.arr = "brackets" -> "U[]" [] v.arr = "generic" -> "Array<U>" [] OTHER -> "(U | SubjectSet<G, \"m\">)[]"
 Sep(v) == CASE v.sep = "," -> ", " [] v.sep = ";" -> "; " [] OTHER -> "\n    "
-Name(x, v) == IF v.quote THEN "\"" \o x \o "\"" ELSE x
+Name(x, v) == IF v.quote THEN "\"" \o RelName(x, v) \o "\"" ELSE RelName(x, v)
 Related(v) == "  related: {" \o Cm(v) \o Name("a", v) \o ": " \o TypeTxt(v) \o Sep(v) \o Name("b", v) \o ": " \o TypeTxt(v) \o Sep(v)
               \o Name("c", v) \o ": U[]" \o Sep(v) \o Name("par", v) \o ": D[]" \o (IF v.trailing /\ v.sep # "nl" THEN Sep(v) ELSE "") \o " }\n"
 Head_(v) == CASE v.ann = "full" -> "(ctx: Context): boolean =>" [] v.ann = "ctx" -> "(ctx: Context) =>"
@@ -74,7 +79,7 @@ HasQ(v) == v.leafc \in {"trav_perm", "perm"}
 ClassD(e, v) ==
   "class D implements Namespace {\n" \o Related(v)
   \o "  permits = {" \o Cm(v) \o Name("p", v) \o ": " \o Head_(v) \o " " \o Show(e, v)
-  \o (IF HasQ(v) THEN "," \o Cm(v) \o "q: (ctx) => this.related.c.includes(ctx.subject)" ELSE "")
+  \o (IF HasQ(v) THEN "," \o Cm(v) \o "q: (ctx) => this.related." \o RelName("c", v) \o ".includes(ctx.subject)" ELSE "")
   \o (IF v.trailing THEN "," ELSE "") \o " }\n}\n"
 Program(e, v) ==
   "import { Namespace, SubjectSet, Context } from \"@ory/keto-namespace-types\"\n"
@@ -82,7 +87,7 @@ Program(e, v) ==
          [] v.order = "DGU" -> ClassD(e, v) \o ClassG \o ClassU
          [] v.order = "GDU" -> ClassG \o ClassD(e, v) \o ClassU
          [] OTHER -> ClassU \o ClassD(e, v) \o ClassG)
-Rels(v) == {"a", "b", "c", "p", "par"} \cup (IF HasQ(v) THEN {"q"} ELSE {})
+Rels(v) == {RelName(x, v) : x \in {"a", "b", "c", "p", "par"}} \cup (IF HasQ(v) THEN {"q"} ELSE {})
 
 RECURSIVE Eval(_, _)
 Eval(e, val) == CASE e.k = "leaf" -> val[e.r] [] e.k = "not" -> ~Eval(e.c, val)
@@ -128,6 +133,6 @@ Init == e \in Chosen /\ vi \in 1..NVariants /\ done = FALSE
 Next == /\ ~done /\ done' = TRUE /\ UNCHANGED <<e, vi>>
         /\ \E v \in {RandomElement(Variants)} :
              PrintT(ToJson([src |-> Program(e, v), tt |-> TT(e), body |-> Show(e, v), dblnot |-> v.dblnot, nest |-> Nest(e),
-                            leafc |-> v.leafc, order |-> v.order, rels |-> Rels(v)]))
+                            leafc |-> v.leafc, order |-> v.order, rels |-> Rels(v), kw |-> v.kw]))
 Spec == Init /\ [][Next]_vars
 =============================================================================
